@@ -1,6 +1,6 @@
 #!/bin/bash
-# Coverage-guided add-on campaigns (atheris / libFuzzer). Not a registered check: Hypothesis + enumeration decide the
-# properties; this adds inputs. A crash leaves $FUZZ_OUT/failing-<Cxx>.json, replayable with ./check <Cxx> --replay.
+# Longer stand-alone coverage-guided campaigns (atheris / libFuzzer). The registered thorough tiers of C01/C02/C15/C06 run a
+# bounded campaign themselves (vf/runner.py: run_fuzz); this script is for hours-long runs. A crash leaves $FUZZ_OUT/failing-<Cxx>.json, replayable with ./check <Cxx> --replay.
 # usage: tools/fuzz.sh [runs-per-shard] [shards] [seed]
 RUNS="${1:-50000}"; SHARDS="${2:-8}"; SEED="${3:-1}"
 cd "$(dirname "$0")/.."
